@@ -76,6 +76,56 @@ Fixpoint encode (v : tval) : bytes :=
 Definition take (n : nat) (b : bytes) : option (bytes * bytes) :=
   if (n <=? length b)%nat then Some (firstn n b, skipn n b) else None.
 
+(* the loops over list elements and struct fields, given the decoder of one value *)
+Fixpoint dec_elems_with (dec : N -> bytes -> option (tval * bytes)) (elem : N) (k : nat) (b : bytes)
+  : option (list tval * bytes) :=
+  match k with
+  | O => Some ([], b)
+  | S k' =>
+      match dec elem b with
+      | None => None
+      | Some (x, b') =>
+          match dec_elems_with dec elem k' b' with
+          | Some (xs, b'') => Some (x :: xs, b'')
+          | None => None
+          end
+      end
+  end.
+
+Fixpoint dec_fields_with (dec : N -> bytes -> option (tval * bytes)) (k : nat) (last : Z) (b : bytes)
+  : option (list (Z * tval) * bytes) :=
+  match k with
+  | O => None
+  | S k' =>
+      match b with
+      | [] => None
+      | h :: r =>
+          if h =? 0 then Some ([], r)
+          else
+            let fty := h mod 16 in
+            let delta := h / 16 in
+            let idr := if delta =? 0 then
+                         match varint_dec r with Some (id, r') => Some (id, r') | None => None end
+                       else Some ((last + Z.of_N delta)%Z, r) in
+            match idr with
+            | None => None
+            | Some (id, r1) =>
+                let fv := if fty =? T_TRUE then Some (TBool true, r1)
+                          else if fty =? T_FALSE then Some (TBool false, r1)
+                          else dec fty r1 in
+                match fv with
+                | None => None
+                | Some (x, r2) =>
+                    match dec_fields_with dec k' id r2 with
+                    | Some (fs, r3) => Some ((id, x) :: fs, r3)
+                    | None => None
+                    end
+                end
+            end
+      end
+  end.
+
+(* [fuel] bounds the nesting depth and the number of fields of a struct *)
 Fixpoint dec_val (fuel : nat) (ty : N) (b : bytes) {struct fuel} : option (tval * bytes) :=
   match fuel with
   | O => None
@@ -106,55 +156,17 @@ Fixpoint dec_val (fuel : nat) (ty : N) (b : bytes) {struct fuel} : option (tval 
             match hdr with
             | None => None
             | Some (n, r1) =>
-                match (fix elems (k : nat) (b : bytes) : option (list tval * bytes) :=
-                   match k with
-                   | O => Some ([], b)
-                   | S k' =>
-                       match dec_val f elem b with
-                       | None => None
-                       | Some (x, b') =>
-                           match elems k' b' with
-                           | Some (xs, b'') => Some (x :: xs, b'')
-                           | None => None
-                           end
-                       end
-                   end) (N.to_nat n) r1
-                with Some (xs, r2) => Some (TList elem xs, r2) | None => None end
+                match dec_elems_with (dec_val f) elem (N.to_nat n) r1 with
+                | Some (xs, r2) => Some (TList elem xs, r2)
+                | None => None
+                end
             end
         end
       else if ty =? T_STRUCT then
-        match (fix fields (k : nat) (last : Z) (b : bytes) : option (list (Z * tval) * bytes) :=
-           match k with
-           | O => None
-           | S k' =>
-               match b with
-               | [] => None
-               | h :: r =>
-                   if h =? 0 then Some ([], r)
-                   else
-                     let fty := h mod 16 in
-                     let delta := h / 16 in
-                     let idr := if delta =? 0 then
-                                  match varint_dec r with Some (id, r') => Some (id, r') | None => None end
-                                else Some ((last + Z.of_N delta)%Z, r) in
-                     match idr with
-                     | None => None
-                     | Some (id, r1) =>
-                         let fv := if fty =? T_TRUE then Some (TBool true, r1)
-                                   else if fty =? T_FALSE then Some (TBool false, r1)
-                                   else dec_val f fty r1 in
-                         match fv with
-                         | None => None
-                         | Some (x, r2) =>
-                             match fields k' id r2 with
-                             | Some (fs, r3) => Some ((id, x) :: fs, r3)
-                             | None => None
-                             end
-                         end
-                     end
-               end
-           end) f 0%Z b
-        with Some (fs, r) => Some (TStruct fs, r) | None => None end
+        match dec_fields_with (dec_val f) f 0%Z b with
+        | Some (fs, r) => Some (TStruct fs, r)
+        | None => None
+        end
       else None
   end.
 
